@@ -316,7 +316,7 @@ async def worker(
                 if backlog.empty():
                     break
                 else:
-                    continue
+                    raw_event = backlog.get_nowait()  # not "continue": a zero timeout never gets anything.
 
             # Exit gracefully and immediately on the end-of-stream marker sent by the watcher.
             if isinstance(raw_event, EOS):
